@@ -660,6 +660,35 @@ def r26_for_pairs(toks, log):
         i += 1
     return toks
 
+def r27_fold_max(toks, log):
+    """R27: `let NAME = X.iter().cloned().fold(INIT, Float::max);`  ->
+            `let mut NAME = INIT; for vx_f in 0 .. X.len() { NAME = NAME.max(X[vx_f]); }`
+    (left fold of max over the elements in order: same operations, same order)"""
+    toks = list(toks)
+    i = 0
+    while i < len(toks):
+        t = toks[i]
+        if t.kind == "id" and t.text == "let":
+            try: e = stmt_end(toks, i)
+            except Undecided:
+                i += 1; continue
+            txt = [u.text for u in toks[i:e + 1]]
+            tail = [".", "iter", "(", ")", ".", "cloned", "(", ")", ".", "fold", "("]
+            # let NAME = X . iter ( ) . cloned ( ) . fold ( INIT , Float :: max ) ;
+            if len(txt) >= 19 and txt[2] == "=" and txt[-6:] == [",", "Float", "::", "max", ")", ";"]:
+                k = None
+                for j in range(3, len(txt) - len(tail)):
+                    if txt[j:j + len(tail)] == tail: k = j; break
+                if k is not None:
+                    name = txt[1]; X = " ".join(txt[3:k]); init = " ".join(txt[k + len(tail):-6])
+                    ln = t.line
+                    new = toks_of("let mut %s : Float = %s ; for vx_f in 0 .. %s . len ( ) { %s = %s . max ( %s [ vx_f ] ) ; }" % (name, init, X, name, name, X), ln)
+                    toks[i:e + 1] = new
+                    log.append(("R27", ln, "fold(%s, Float::max) over %s -> loop" % (init, X)))
+                    i += len(new); continue
+        i += 1
+    return toks
+
 def r5_local_const(toks, log):
     """fn-local `const N: T = e;` -> `let N: T = e;` (applied to fn bodies only)"""
     toks = list(toks)
@@ -767,6 +796,7 @@ def apply_rewrites(toks, cfg, log):
     if cfg.get("subst_pre"):
         toks = subst(toks, log, cfg["subst_pre"])
     toks = r16_assert_eq(toks, log)
+    toks = r27_fold_max(toks, log)
     if cfg.get("unmodelled"):
         toks = r15_unmodelled(toks, log)
     toks = r26_for_pairs(toks, log)
@@ -1114,7 +1144,9 @@ def as_inherent(toks, log):
             log.append(("R8", body[kw].line, "associated type dropped (inherent impl)")); continue
         seg = body[s:e]
         # make fns pub
-        new_body += [T("id", "pub", seg[0].line)] + seg if not (seg[0].kind == "id" and seg[0].text == "pub") else seg
+        a = kw - s          # attributes (e.g. the external_body of a trusted take) stay in front of `pub`
+        attrs, rest = seg[:a], seg[a:]
+        new_body += attrs + ([T("id", "pub", rest[0].line)] + rest if not (rest[0].kind == "id" and rest[0].text == "pub") else rest)
     log.append(("R8", toks[i].line, "trait impl -> inherent impl (requires on trait impl methods unsupported)"))
     return toks[:i + 1] + gen + ty + [toks[bo]] + new_body + toks[bc:]
 
